@@ -20,12 +20,15 @@ pub enum Reg {
     Both,
     /// held with add_child and, in addition, registered under this type
     AddTy(u8),
+    /// add_child now and once more after all the other children have been taken (the same child
+    /// handed over twice is held twice - and costs its siblings nothing)
+    AddTwice,
 }
 
 impl Reg {
     fn receives(self, ty: u8) -> bool {
         match self {
-            Reg::Add => false,
+            Reg::Add | Reg::AddTwice => false,
             Reg::Ty(t) | Reg::AddTy(t) => t == ty,
             Reg::Both => true,
         }
@@ -111,6 +114,7 @@ impl Scene for S {
         order.sort_by_key(|n| std::cmp::Reverse(depth(&self.nodes, n.role)));
         for n in order {
             let mut actions = vec![];
+            let mut again = vec![];
             for c in self.children_of(n.role) {
                 let a = addrs[c.role as usize].clone().expect("child spawned before parent");
                 let mut key = || store_put(Stored::Addr(a.clone()));
@@ -125,8 +129,13 @@ impl Scene for S {
                         actions.push(Action::AddChild { key: key() });
                         actions.push(Action::RegisterChild { key: key(), ty });
                     }
+                    Reg::AddTwice => {
+                        actions.push(Action::AddChild { key: key() });
+                        again.push(Action::AddChild { key: key() });
+                    }
                 }
             }
+            actions.extend(again);
             if self.child_timers && n.parent.is_some() {
                 actions.push(Action::IntervalWith { timer: 8, period: 3 });
                 actions.push(Action::Interval { timer: 9, period: 3 });
@@ -370,7 +379,7 @@ pub fn causes(tier: Tier) -> Vec<Cause> {
 fn tree_name(nodes: &[Node]) -> String {
     nodes
         .iter()
-        .map(|n| format!("{}<-{}{}{}{}", n.role, n.parent.map(|p| p.to_string()).unwrap_or("-".into()), match n.reg { Reg::Add => "a".into(), Reg::Ty(t) => format!("t{t}"), Reg::Both => "t1t2".into(), Reg::AddTy(t) => format!("at{t}") }, if n.outside { "o" } else { "" }, if n.outside_stops { "x" } else { "" }))
+        .map(|n| format!("{}<-{}{}{}{}", n.role, n.parent.map(|p| p.to_string()).unwrap_or("-".into()), match n.reg { Reg::Add => "a".into(), Reg::Ty(t) => format!("t{t}"), Reg::Both => "t1t2".into(), Reg::AddTy(t) => format!("at{t}"), Reg::AddTwice => "aa".into() }, if n.outside { "o" } else { "" }, if n.outside_stops { "x" } else { "" }))
         .collect::<Vec<_>>()
         .join(",")
 }
@@ -381,6 +390,8 @@ fn base_cases(tier: Tier) -> Vec<Case> {
     let n = |role, parent, reg, outside| Node { role, parent: Some(parent), reg, outside, outside_stops: false };
     let dying = |role, parent, reg| Node { role, parent: Some(parent), reg, outside: true, outside_stops: true };
     let mut trees: Vec<Vec<Node>> = vec![
+        // (no children at all: broadcasts go nowhere, nothing else changes)
+        vec![root],
         vec![root, n(1, 0, Reg::Add, false)],
         vec![root, n(1, 0, Reg::Ty(1), false)],
         vec![root, n(1, 0, Reg::Ty(1), true)],
@@ -390,6 +401,8 @@ fn base_cases(tier: Tier) -> Vec<Case> {
         // one actor held twice by the same parent: under both types, or plainly and under a type
         vec![root, n(1, 0, Reg::Both, false), n(2, 0, Reg::Ty(2), false)],
         vec![root, n(1, 0, Reg::AddTy(2), false), n(2, 0, Reg::Ty(1), true)],
+        vec![root, n(1, 0, Reg::AddTwice, false), n(2, 0, Reg::Add, false)],
+        vec![root, n(1, 0, Reg::AddTwice, false), n(2, 0, Reg::Ty(1), false), n(3, 0, Reg::Add, true)],
         // a child that is stopped from outside while the parent lives, with siblings of the same type
         vec![root, dying(1, 0, Reg::Ty(1)), n(2, 0, Reg::Ty(1), false)],
         vec![root, n(1, 0, Reg::Ty(1), false), dying(2, 0, Reg::Ty(1)), n(3, 0, Reg::Ty(1), false)],
@@ -411,7 +424,7 @@ fn base_cases(tier: Tier) -> Vec<Case> {
                 for &mb in mbs {
                     // (quick tier: the trees with a child held twice by its parent are about the
                     // broadcast tables - two broadcasts of different types, graceful ends)
-                    let twice = tree.iter().any(|n| matches!(n.reg, Reg::Both | Reg::AddTy(_)));
+                    let twice = tree.iter().any(|n| matches!(n.reg, Reg::Both | Reg::AddTy(_) | Reg::AddTwice));
                     if twice && tier == Tier::Quick && !(matches!(cause, Cause::StopClient | Cause::LastDrop) && bc.iter().any(|b| b.0 == 2)) {
                         continue;
                     }
